@@ -1,1 +1,150 @@
-static void oracle_emit(const vcfg *c, const uint8_t *f, size_t n) { (void)c; (void)f; (void)n; }
+/* Emit class (C06, C01, C02, C10 sender half).
+ * Decomposition (assume/guarantee over real code on both sides):
+ *   h_emit_loop : real parseFrame + parseEmit, sendProbeMsg replaced by a recording stub
+ *   h_emit_send : real sendProbeMsg alone with arbitrary arguments
+ *   h_emit_full : undecomposed path, descriptor count bounded by NMAX_FULL */
+#define EMIT_MAXD(mtu) (((mtu) - 34) / 14)
+#ifndef NMAX_FULL
+#define NMAX_FULL 3
+#endif
+
+static unsigned e_n;            /* declared descriptor count of the Emit under test */
+static unsigned e_calls;
+static bool e_in_full;
+
+static const uint8_t *desc_at(unsigned i) { return in.frame + 34 + 14 * i; }
+static uint8_t e_dj[14];        /* content of descriptor in.j, tied to the frame image by assumptions at constant indices */
+
+/* --- recording stub for sendProbeMsg (installed with --replace-calls) */
+bool rec_sendProbeMsg(ethernet_address_t src, ethernet_address_t dst, lltd_iface_state *st, void *iface_ctx, int pause_ms, uint8_t type, bool ack) {
+    unsigned k = e_calls++;
+    unsigned maxd = EMIT_MAXD(g_cfgA.mtu);
+    V_ASSERT(k < maxd, "C06: never more Probe/Train frames than a maximum-size Emit can carry");
+    V_ASSERT(st == ST && iface_ctx == (void *)&g_cfgA, "C17: emission uses the record and interface of the receiving context");
+#ifdef EMIT_VALID_KINDS
+    if (e_n <= maxd && k < maxd && k == in.j) {      /* in.j: universally quantified descriptor index (one symbolic read) */
+        const uint8_t *d = e_dj;
+        V_ASSERT(type == d[0], "C06: descriptor order kept - kind of the k-th emission is the k-th descriptor's");
+        V_ASSERT(pause_ms == (int)d[1], "C06: k-th emission waits the k-th descriptor's pause");
+        V_ASSERT(mac6_eq(src.a, d + 2) && mac6_eq(dst.a, d + 8), "C06: k-th emission uses the k-th descriptor's source and destination");
+    }
+    if (e_n <= maxd) V_ASSERT(ack == (k + 1 == e_n), "C06: acknowledgement requested exactly on the last descriptor");
+#else
+    (void)src; (void)dst; (void)pause_ms; (void)type; (void)ack;
+#endif
+    V_WITNESS("sendProbeMsg stub called");
+    return true;
+}
+
+void h_emit_loop(void) {
+    common_setup(0);
+    g_class = CL_NONE;
+    V_ASSUME(in.frame[F_TOS] == 0 && in.frame[F_OP] == opcode_emit);
+    V_ASSUME(from_mapper_or_none());
+    unsigned maxd = EMIT_MAXD(g_cfgA.mtu);
+    e_n = be16(in.frame + 32);
+#ifdef EMIT_VALID_KINDS
+    for (unsigned i = 0; i < EMIT_MAXD(FRAME_N); i++) V_ASSUME(in.frame[34 + 14 * i] <= 1);
+#endif
+    for (unsigned i = 0; i < EMIT_MAXD(FRAME_N); i++) {
+        if (i == in.j) {
+            for (unsigned b = 0; b < 14; b++) { e_dj[b] = in.frame2[b]; V_ASSUME(in.frame[34 + 14 * i + b] == in.frame2[b]); }
+        }
+    }
+    parseFrame(RX, &g_cfgA);
+#ifdef EMIT_VALID_KINDS
+    V_ASSERT(e_calls == (e_n <= maxd ? e_n : e_calls), "C06: exactly one emission per descriptor that fits");
+#endif
+    V_ASSERT(e_calls <= maxd, "C06: a declared count larger than the frame can carry never yields more emissions than a maximum-size Emit");
+    V_ASSERT(ST->mapper_seq == be16(in.frame + F_SEQ), "C06: the Emit's sequence number is remembered for the ACK");
+    V_ASSERT(ST->mapper_known == 1 && mac6_eq(ST->mapper_real.a, in.frame + F_RSRC), "C05: the Emit's sender is (or stays) the active mapper");
+    V_WITNESS("h_emit_loop end");
+}
+
+/* --- transmit oracle used by h_emit_send / h_emit_full */
+static ethernet_address_t s_src, s_dst; static int s_pause; static uint8_t s_type; static bool s_ack;
+static uint8_t s_mreal[6], s_mapp[6]; static uint16_t s_seq;
+
+static void check_probe_frame(const vcfg *c, const uint8_t *f, size_t n, const uint8_t *src, const uint8_t *dst, uint8_t kind) {
+    V_ASSERT(n == 32, "C02: Probe/Train is exactly the 32-byte base header");
+    V_ASSERT(f[F_OP] == (kind == 1 ? 4 : 3), "C06: requested kind - Probe for 1, Train for 0");
+    V_ASSERT(f[F_TOS] == 0, "C02: Probe/Train belongs to topology discovery");
+    V_ASSERT(mac6_eq(f + F_EDST, dst) && mac6_eq(f + F_ESRC, src), "C06: descriptor's source and destination as Ethernet addresses");
+    V_ASSERT(mac6_eq(f + F_RSRC, c->mac), "C06: own address as real source of an emitted Probe/Train");
+    V_ASSERT(mac6_eq(f + F_RDST, dst), "C10: emitted Probe/Train names the destination station as real destination, so a peer responder records it");
+    V_ASSERT(f[F_SEQ] == 0 && f[F_SEQ + 1] == 0, "C02: Probe/Train carries no sequence number");
+}
+static void check_ack_frame(const vcfg *c, const uint8_t *f, size_t n, const uint8_t *mreal, const uint8_t *mapp, const uint8_t *alt, unsigned seq) {
+    V_ASSERT(n == 32, "C02: ACK is exactly the 32-byte base header");
+    V_ASSERT(f[F_OP] == 5 && f[F_TOS] == 0, "C06: emission is followed by an ACK of topology discovery");
+    V_ASSERT(mac6_eq(f + F_RDST, mreal), "C06: ACK addressed to the mapper");
+    V_ASSERT(mac6_eq(f + F_EDST, mapp) || mac6_eq(f + F_EDST, mreal) || mac6_eq(f + F_EDST, alt), "C06: ACK travels to the mapper's (apparent or real) address");
+    V_ASSERT(mac6_eq(f + F_ESRC, c->mac) && mac6_eq(f + F_RSRC, c->mac), "C06: ACK sourced from own address");
+    V_ASSERT(be16(f + F_SEQ) == seq, "C06: ACK bears the Emit's sequence number");
+}
+
+static void oracle_emit(const vcfg *c, const uint8_t *f, size_t n) {
+    unsigned s = g_nsend - 1;
+    if (!e_in_full) {
+        /* single sendProbeMsg call */
+        V_ASSERT(s <= 1, "C06: one Probe/Train and at most one ACK per descriptor");
+        if (s == 0) {
+            V_ASSERT(g_nsleep == 1 && g_nevent == 1 && g_last_sleep == (uint32_t)s_pause, "C06: the descriptor's pause is waited before its frame is sent");
+            check_probe_frame(c, f, n, s_src.a, s_dst.a, s_type);
+        } else {
+            V_ASSERT(s_ack, "C06: ACK only after the last descriptor");
+            check_ack_frame(c, f, n, s_mreal, s_mapp, s_mreal, s_seq);
+        }
+    } else {
+        V_ASSERT(s <= e_n, "C02,C06: at most one frame per descriptor plus one acknowledgement");
+        if (s < e_n) {
+            for (unsigned i = 0; i < NMAX_FULL; i++) {       /* constant indices into the frame image */
+                if (i == s) {
+                    const uint8_t *d = desc_at(i);
+                    V_ASSERT(g_nsleep == s + 1 && g_last_sleep == (uint32_t)d[1], "C06: each Probe/Train is sent after waiting its descriptor's pause");
+                    check_probe_frame(c, f, n, d + 2, d + 8, d[0]);
+                }
+            }
+        } else {
+            const uint8_t *mapp = in.st.known ? in.st.mapp : in.frame + F_ESRC;
+            check_ack_frame(c, f, n, in.frame + F_RSRC, mapp, in.frame + F_ESRC, be16(in.frame + F_SEQ));
+        }
+    }
+}
+
+struct emit_send_in { uint8_t src[6], dst[6]; uint8_t pause; uint8_t type; uint8_t ack; };
+
+void h_emit_send(void) {
+    common_setup(0);
+    g_class = CL_EMIT;
+    e_in_full = false;
+    /* arguments drawn from the (otherwise unused) frame image */
+    mac6_set(s_src.a, in.frame + 0); mac6_set(s_dst.a, in.frame + 6);
+    s_pause = in.frame[12]; s_type = in.frame[13] & 1; s_ack = in.frame[14] & 1;
+    mac6_set(s_mreal, in.st.mreal); mac6_set(s_mapp, in.st.mapp); s_seq = in.st.seq;
+    long live0 = g_live_blocks;
+    bool ok = sendProbeMsg(s_src, s_dst, ST, &g_cfgA, s_pause, s_type, s_ack);
+    V_ASSERT(ok, "C06: emission succeeds when the platform transmits");
+    V_ASSERT(g_nsend == (s_ack ? 2u : 1u), "C06: one Probe/Train per descriptor, plus exactly one ACK after the last");
+    V_ASSERT(g_nsleep == 1, "C06: exactly one pause per descriptor");
+    V_ASSERT(g_live_blocks == live0, "C19: Probe/ACK buffer released");
+    V_WITNESS("h_emit_send end");
+}
+
+void h_emit_full(void) {
+    common_setup(0);
+    g_class = CL_EMIT;
+    e_in_full = true;
+    V_ASSUME(in.frame[F_TOS] == 0 && in.frame[F_OP] == opcode_emit);
+    V_ASSUME(from_mapper_or_none());
+    e_n = be16(in.frame + 32);
+    V_ASSUME(e_n >= 1 && e_n <= NMAX_FULL);
+    for (unsigned i = 0; i < NMAX_FULL; i++) V_ASSUME(in.frame[34 + 14 * i] <= 1);
+    long live0 = g_live_blocks;
+    parseFrame(RX, &g_cfgA);
+    V_ASSERT(g_nsend == e_n + 1, "C06: n Probe/Train frames followed by exactly one ACK");
+    V_ASSERT(g_nsleep == e_n, "C06: one pause per descriptor");
+    V_ASSERT(g_live_blocks == live0, "C19: every emission buffer released");
+    V_ASSERT(ST->see_list_count == in.st.n, "C07: emitting does not touch recorded observations");
+    V_WITNESS("h_emit_full end");
+}
